@@ -88,6 +88,25 @@ func (ck *Check) idempotentAccessors(rule string) map[*ssa.Function]string {
 		}
 		ctx := ck.P.NewCtx(fn)
 		recv := paramTerm(fn.Params[0])
+		// delegation to a shared lazy-parse helper: return h(&recv.cache, recv.<own string>)
+		if cf, sf, ok := ck.lazyDelegation(fn); ok {
+			okv = okv && sf == strField
+			if sf != strField {
+				why = append(why, "parses "+sf.Name()+" instead of its own option string")
+			}
+			cache = cf
+			if prev, dup := usedCache[cache]; dup {
+				okv = false
+				why = append(why, "shares its cache field with "+prev)
+			} else {
+				usedCache[cache] = name
+			}
+			ck.cond(okv, rule, key, ck.P.position(fn.Pos()), funcID(fn), name+"() parses and caches only its own option ("+tag+") — idempotent, sibling-isomorphic", "through a lazy-parse helper", strings.Join(why, "; "))
+			if okv {
+				out[fn] = tag
+			}
+			continue
+		}
 		for _, b := range fn.Blocks {
 			for _, in := range b.Instrs {
 				switch x := in.(type) {
@@ -191,18 +210,43 @@ func (ck *Check) acceptSetOf(rule string) *acceptSet {
 		return nil
 	}
 	cf := clo.Fn.(*ssa.Function)
-	// closure shape: problems = append(problems, one) exactly under ¬cond
+	// the recorder: a closure over the problem list, or the bound method value p.checkThat of a
+	// problem-list type (go/ssa wraps it in a synthetic closure that forwards to the method)
+	var target ssa.Value // the address the problem list is stored through
+	var condP *ssa.Parameter
+	if len(cf.FreeVars) == 1 {
+		target = cf.FreeVars[0]
+		if len(cf.Params) >= 1 {
+			condP = cf.Params[0]
+		}
+	}
+	if cf.Synthetic != "" {
+		var m *ssa.Function
+		for _, b := range cf.Blocks {
+			for _, in := range b.Instrs {
+				if c, ok := in.(ssa.CallInstruction); ok {
+					if g := c.Common().StaticCallee(); g != nil && ck.P.inRepo(g) && g.Signature.Recv() != nil {
+						m = g
+					}
+				}
+			}
+		}
+		if m != nil && len(m.Params) >= 2 {
+			cf, target, condP = m, m.Params[0], m.Params[1]
+		}
+	}
+	// recorder shape: problems = append(problems, one) exactly under ¬cond
 	{
 		cctx := ck.P.NewCtx(cf)
-		okv := len(cf.Params) >= 1 && isBool(cf.Params[0].Type()) && len(cf.FreeVars) == 1
+		okv := condP != nil && isBool(condP.Type()) && target != nil
 		var why []string
 		nstores := 0
 		if okv {
-			cond := Atom(paramTerm(cf.Params[0]))
+			cond := Atom(paramTerm(condP))
 			for _, b := range cf.Blocks {
 				for _, in := range b.Instrs {
 					if st, ok := in.(*ssa.Store); ok {
-						if st.Addr != ssa.Value(cf.FreeVars[0]) {
+						if st.Addr != target {
 							if _, isAlloc := baseOfAddr(st.Addr).(*ssa.Alloc); isAlloc {
 								continue
 							}
@@ -244,7 +288,11 @@ func (ck *Check) acceptSetOf(rule string) *acceptSet {
 	}
 	for _, b := range fn.Blocks {
 		if r, ok := b.Instrs[len(b.Instrs)-1].(*ssa.Return); ok {
-			addr, isLoad := derefLoadOf(r.Results[0])
+			rv := r.Results[0]
+			if ctv, ok := rv.(*ssa.ChangeType); ok {
+				rv = ctv.X // a named slice type converted back to []error
+			}
+			addr, isLoad := derefLoadOf(rv)
 			ck.cond(isLoad && addr == problems, rule, "validator/returns-problems", ck.P.instrPos(r), funcID(fn), "the validator returns the recorded problem list", r.Results[0].String(), "")
 		}
 	}
@@ -283,7 +331,7 @@ func checkC16(ck *Check) {
 	}
 	as := ck.acceptSetOf("C16.R1")
 	if as != nil && as.ng != nil {
-		ck.floor("C16.R1", "checkThat calls", as.calls, 20)
+		ck.floor("C16.R1", "checkThat calls", as.calls, 12)
 		ck.invariants("C16.R1", as)
 	}
 	ck.helperPredicates("C16.R2")
@@ -514,15 +562,28 @@ func (ck *Check) validationGate(rule string) {
 				if f == nil || !strings.HasPrefix(f.Name(), "Fatal") || !strings.Contains(pkgPathOfFn(f), "logrus") {
 					continue
 				}
-				if imp, _, _ := Entails(ctx.PC(c), And(body, hasProblems)); !imp {
+				// arithmetically, so that len(errs) > 0 and len(errs) != 0 read the same
+				one := intConstTermTyped(1, types.Typ[types.Int])
+				impB, _, _ := Entails(ctx.PC(c), body)
+				impL, _, errL := ctx.EntailsLinear(ctx.PC(c), []LinFact{{A: one, B: lenOf("len", errs), K: 0, Text: "1 ≤ len(errs)"}})
+				if !impB || errL != nil || !impL {
 					why = append(why, "the fatal exit is not under len(errs) > 0: "+ctx.PC(c).String())
 					continue
 				}
 				// every path from the len(errs) > 0 edge back to the loop header passes the fatal call
 				for tb := range l.Blocks {
 					br, ok := tb.Instrs[len(tb.Instrs)-1].(*ssa.If)
-					if !ok || ctx.Formula(br.Cond) != hasProblems {
+					if !ok {
 						continue
+					}
+					// the branch that tests for problems: its true edge means len(errs) ≥ 1, its false edge len(errs) ≤ 0
+					cf := ctx.Formula(br.Cond)
+					if cf != hasProblems {
+						t1, _, e1 := ctx.EntailsLinear(cf, []LinFact{{A: one, B: lenOf("len", errs), K: 0}})
+						t2, _, e2 := ctx.EntailsLinear(Not(cf), []LinFact{{A: lenOf("len", errs), B: zeroTerm(types.Typ[types.Int]), K: 0}})
+						if e1 != nil || e2 != nil || !t1 || !t2 {
+							continue
+						}
 					}
 					then := tb.Succs[0]
 					if !reachesWithout(then.Instrs[0], l.Header.Instrs[0], func(x ssa.Instruction) bool { return x == ssa.Instruction(c) }) && then != l.Header {
@@ -627,7 +688,7 @@ func (ck *Check) decoderAndKeys(rule string) {
 		ck.undecided(rule, "doc/parse", "", "docs/configuration/nodegroup.md", "the documented YAML example parses", err.Error())
 		return
 	}
-	ck.floor(rule, "documented keys", len(docKeys), 20)
+	ck.floor(rule, "documented keys", len(docKeys), 12)
 	var ks []string
 	for k := range docKeys {
 		ks = append(ks, k)
@@ -704,4 +765,101 @@ func documentedKeys(path string) (map[string]bool, error) {
 		return nil, fmt.Errorf("no yaml example found in %s", path)
 	}
 	return keys, nil
+}
+
+// lazyParseHelper: h(cache *time.Duration, raw string) time.Duration with the canonical lazy shape:
+// the only store is *cache ← result 0 of time.ParseDuration(raw), and every return is 0, *cache
+// or that parsed value. Returns the parameter indices of cache and raw.
+func (ck *Check) lazyParseHelper(h *ssa.Function) (int, int, bool) {
+	if h == nil || h.Blocks == nil || len(h.Params) != 2 || infoOf(h).hasLoop {
+		return 0, 0, false
+	}
+	ci, ri := -1, -1
+	for i, p := range h.Params {
+		if pt, ok := p.Type().(*types.Pointer); ok && strings.HasSuffix(typeName(pt.Elem()), "time.Duration") {
+			ci = i
+		}
+		if b, ok := p.Type().Underlying().(*types.Basic); ok && b.Kind() == types.String {
+			ri = i
+		}
+	}
+	if ci < 0 || ri < 0 {
+		return 0, 0, false
+	}
+	ctx := ck.P.NewCtx(h)
+	cp, rp := paramTerm(h.Params[ci]), paramTerm(h.Params[ri])
+	isParsed := func(t *Term) bool {
+		return t.Kind == "extract" && t.Name == "0" && t.Args[0].Kind == "call" && t.Args[0].Name == "time.ParseDuration" && len(t.Args[0].Args) == 1 && t.Args[0].Args[0].Key() == rp.Key()
+	}
+	stores := 0
+	for _, b := range h.Blocks {
+		for _, in := range b.Instrs {
+			switch x := in.(type) {
+			case *ssa.Store:
+				stores++
+				if x.Addr != ssa.Value(h.Params[ci]) || !isParsed(ctx.Term(x.Val)) {
+					return 0, 0, false
+				}
+			case *ssa.Return:
+				rt := ctx.Term(x.Results[0])
+				isZero := rt.Kind == "const" && rt.Name == "0"
+				isCache := rt.Kind == "deref" && rt.Args[0].Key() == cp.Key()
+				if !isZero && !isCache && !isParsed(rt) {
+					return 0, 0, false
+				}
+			case ssa.CallInstruction:
+				f := x.Common().StaticCallee()
+				if f == nil || !(pkgPathOfFn(f) == "time" && f.Name() == "ParseDuration") {
+					return 0, 0, false
+				}
+			}
+		}
+	}
+	return ci, ri, stores == 1
+}
+
+// lazyDelegation: accessor fn is `return h(&recv.cache, recv.str)` for a lazy-parse helper h;
+// returns the cache field and the string field.
+func (ck *Check) lazyDelegation(fn *ssa.Function) (*types.Var, *types.Var, bool) {
+	if len(fn.Blocks) != 1 {
+		return nil, nil, false
+	}
+	var call *ssa.Call
+	for _, in := range fn.Blocks[0].Instrs {
+		switch x := in.(type) {
+		case *ssa.Call:
+			if call != nil {
+				return nil, nil, false
+			}
+			call = x
+		case *ssa.Store:
+			return nil, nil, false
+		case *ssa.Return:
+			if call == nil || len(x.Results) != 1 || x.Results[0] != ssa.Value(call) {
+				return nil, nil, false
+			}
+		}
+	}
+	if call == nil {
+		return nil, nil, false
+	}
+	h := call.Common().StaticCallee()
+	ci, ri, ok := ck.lazyParseHelper(h)
+	if !ok {
+		return nil, nil, false
+	}
+	recv := fn.Params[0]
+	ca, isFA := call.Common().Args[ci].(*ssa.FieldAddr)
+	if !isFA || ca.X != ssa.Value(recv) {
+		return nil, nil, false
+	}
+	ld, isLoad := call.Common().Args[ri].(*ssa.UnOp)
+	if !isLoad {
+		return nil, nil, false
+	}
+	sa, isFA2 := ld.X.(*ssa.FieldAddr)
+	if !isFA2 || sa.X != ssa.Value(recv) {
+		return nil, nil, false
+	}
+	return fieldOfAddr(ca), fieldOfAddr(sa), true
 }
